@@ -2,7 +2,7 @@
    (control/index.go Get*, control/control.go getOptionalDependencyField), DSC.DebianSource, Changes.GetDSC's choice of
    file, FileHash.ByHashPath. *)
 From Coq Require Import List Ascii String Bool Arith Lia.
-Require Import GS R2 D3.
+Require Import GS R2 D3 ACC PATH.
 Import ListNotations.
 
 (* ---------- on-demand dependency fields ----------
@@ -100,6 +100,20 @@ Section ByHash.
     - rewrite app_assoc. apply has_prefix_app.
   Qed.
 End ByHash.
+
+(* ---------- AbsFiles with the path model in the place of the oracle ---------- *)
+(* every listed plain name becomes <directory>/<name>; order and the other columns are kept *)
+Theorem abs_files_plain base cs files : PATH.clean_abs base cs -> cs <> [] ->
+  Forall (fun e => PATH.plain (fst e) = true) files ->
+  ACC.abs_files PATH.join2 base files = map (fun e => (base ++ PATH.slash :: fst e, snd e)) files.
+Proof.
+  intros C NE F. unfold ACC.abs_files. apply map_ext_in. intros e I. rewrite Forall_forall in F.
+  destruct (PATH.join_plain base cs (fst e) C (F e I)) as [J _]. destruct cs; [congruence|]. cbn beta. f_equal. exact J.
+Qed.
+(* ... and ByHashPath with filepath.Dir from the model: for an index file <dir>/<name> it is <dir>/by-hash/<alg>/<hash> *)
+Theorem by_hash_path_of_entry d cs n byhash hash : PATH.clean_abs d cs -> cs <> [] -> PATH.plain n = true ->
+  by_hash_path PATH.dir byhash hash (d ++ PATH.slash :: n) = d ++ s "/by-hash/" ++ byhash ++ s "/" ++ hash.
+Proof. intros C NE P. unfold by_hash_path. now rewrite (PATH.dir_of_entry d cs n C NE P). Qed.
 
 Example acc2_ex :
   debian_source [s "x_1.0.orig.tar.gz"; s "x_1.0-1.debian.tar.xz"; s "y.debian.z"] = Some (s "x_1.0-1.debian.tar.xz") /\
